@@ -8,8 +8,14 @@ package lnwire
 // drawn from the package's own generators (RandTestMessage) resp. the
 // package's onionFailures table, and records what the real codec did with
 // it.  It also sweeps the whole 16-bit type/failure-code space through the
-// dispatchers and probes the WriteMessage payload bound.  No judgement here:
-// spec/WireLaws/WireLawsTrace.tla decides.
+// dispatchers and probes the WriteMessage payload bound.  The value-boundary
+// operators of the plan (val-int, val-bytes, val-len) are executed on the
+// VALUE: the generated message / failure value is walked by reflection
+// (c10Leaves: nested lnwire structs, the embedded channel_update of a failure,
+// optional TLV records, unexported fields), the leaf the repetition selects
+// is set to the value of the plan cell's boundary class on a deep copy, the
+// copy is encoded by the real encoder and the real codec is observed on that
+// encoding.  No judgement here: spec/WireLaws/WireLawsTrace.tla decides.
 
 import (
 	"bytes"
@@ -26,10 +32,12 @@ import (
 	"runtime"
 	"runtime/metrics"
 	"sort"
+	"strings"
 	"sync"
 	"sync/atomic"
 	"testing"
 	"time"
+	"unsafe"
 
 	"github.com/lightningnetwork/lnd/internal/verifkit"
 	"github.com/lightningnetwork/lnd/tlv"
@@ -457,6 +465,309 @@ func c10Mutate(v *c10Valid, c c10Cell, rep int) ([]byte, bool) {
 	return nil, false
 }
 
+
+// ---- value-boundary operators ------------------------------------------------
+
+// c10Leaf is one scalar, fixed-size or length-prefixed field of a value.
+type c10Leaf struct {
+	path   string // Update.ShortChannelID.BlockHeight
+	fld    string // ShortChannelID.BlockHeight: declaring struct type . field
+	gotype string
+	class  string // int | bytes | len
+	w      int    // int: bytes of the Go type (0 = bool); bytes: array length; len: current length
+	v      reflect.Value
+}
+
+// c10Settable lifts the read-only mark reflection puts on unexported fields
+// (the failure messages keep their fields unexported).
+func c10Settable(v reflect.Value) reflect.Value {
+	if !v.CanSet() && v.CanAddr() {
+		return reflect.NewAt(v.Type(), unsafe.Pointer(v.UnsafeAddr())).Elem()
+	}
+	return v
+}
+
+// c10WalkPkg: the packages whose struct types are containers of wire fields;
+// everything else (curve points, scalars, net.Addr implementations) is opaque.
+func c10WalkPkg(t reflect.Type) string {
+	p := t.PkgPath()
+	switch {
+	case strings.HasSuffix(p, "/lnd/lnwire"):
+		return "lnwire"
+	case strings.HasSuffix(p, "/lnd/tlv"):
+		return "tlv"
+	case strings.HasSuffix(p, "/lnd/fn/v2"), strings.HasSuffix(p, "/lnd/fn"):
+		return "fn"
+	case strings.HasSuffix(p, "btcd/wire"), strings.HasSuffix(p, "btcd/wire/v2"):
+		return "wire"
+	case p == "image/color":
+		return "color"
+	}
+	return ""
+}
+
+func c10TypeName(t reflect.Type) string {
+	n := t.Name()
+	if n == "" {
+		n = t.String()
+	}
+	if i := strings.IndexByte(n, '['); i > 0 {
+		n = n[:i]
+	}
+	return n
+}
+
+func c10Walk(v reflect.Value, path, fld string, out *[]c10Leaf) {
+	v = c10Settable(v)
+	t := v.Type()
+	leaf := func(class string, w int) {
+		if v.CanSet() {
+			*out = append(*out, c10Leaf{path: path, fld: fld, gotype: c10TypeName(t), class: class, w: w, v: v})
+		}
+	}
+	switch v.Kind() {
+	case reflect.Ptr:
+		if !v.IsNil() && v.Elem().Kind() == reflect.Struct && c10WalkPkg(v.Elem().Type()) != "" {
+			c10Walk(v.Elem(), path, fld, out)
+		}
+	case reflect.Struct:
+		pkg := c10WalkPkg(t)
+		if pkg == "" {
+			return
+		}
+		// an option container: its payload is part of the value only when set
+		if is := v.FieldByName("isSome"); pkg == "fn" && is.IsValid() {
+			if is.Bool() {
+				c10Walk(v.FieldByName("some"), path, fld, out)
+			}
+			return
+		}
+		for i := 0; i < v.NumField(); i++ {
+			sf := t.Field(i)
+			p, f := path, fld
+			if pkg != "tlv" && pkg != "fn" && !sf.Anonymous {
+				if p != "" {
+					p += "."
+				}
+				p += sf.Name
+				f = c10TypeName(t) + "." + sf.Name
+			}
+			c10Walk(v.Field(i), p, f, out)
+		}
+	case reflect.Bool:
+		leaf("int", 0)
+	case reflect.Uint8, reflect.Int8:
+		leaf("int", 1)
+	case reflect.Uint16, reflect.Int16:
+		leaf("int", 2)
+	case reflect.Uint32, reflect.Int32:
+		leaf("int", 4)
+	case reflect.Uint64, reflect.Int64, reflect.Uint, reflect.Int:
+		leaf("int", 8)
+	case reflect.Array, reflect.Slice:
+		if t.Elem().Kind() == reflect.Uint8 {
+			if v.Kind() == reflect.Array {
+				leaf("bytes", v.Len())
+			} else if _, isTlv := v.Interface().(ExtraOpaqueData); !isTlv {
+				// (an extension stream is not a byte string: ext-odd and
+				// the tail-* operators deal with it)
+				leaf("len", v.Len())
+			}
+			return
+		}
+		// the first two elements of a list stand for the list
+		for i := 0; i < v.Len() && i < 2; i++ {
+			c10Walk(v.Index(i), fmt.Sprintf("%s[%d]", path, i), fld, out)
+		}
+	}
+}
+
+func c10Leaves(val interface{}, class string) []c10Leaf {
+	var all, out []c10Leaf
+	rv := reflect.ValueOf(val)
+	if rv.Kind() == reflect.Ptr && !rv.IsNil() {
+		c10Walk(rv.Elem(), "", "", &all)
+	}
+	for _, l := range all {
+		if l.class == class {
+			out = append(out, l)
+		}
+	}
+	return out
+}
+
+// c10Copy copies src into dst along everything c10Walk descends into (the
+// encoders sort lists in place, and the failure values are the package's
+// shared table entries: a case never touches the generated value itself).
+func c10Copy(dst, src reflect.Value) {
+	dst, src = c10Settable(dst), c10Settable(src)
+	switch src.Kind() {
+	case reflect.Ptr:
+		if !src.IsNil() && src.Elem().Kind() == reflect.Struct && c10WalkPkg(src.Elem().Type()) != "" {
+			n := reflect.New(src.Type().Elem())
+			c10Copy(n.Elem(), src.Elem())
+			dst.Set(n)
+			return
+		}
+	case reflect.Struct:
+		if c10WalkPkg(src.Type()) != "" {
+			for i := 0; i < src.NumField(); i++ {
+				c10Copy(dst.Field(i), src.Field(i))
+			}
+			return
+		}
+	case reflect.Slice:
+		if !src.IsNil() {
+			n := reflect.MakeSlice(src.Type(), src.Len(), src.Len())
+			if src.Type().Elem().Kind() == reflect.Uint8 {
+				reflect.Copy(n, src)
+			} else {
+				for i := 0; i < src.Len(); i++ {
+					c10Copy(n.Index(i), src.Index(i))
+				}
+			}
+			dst.Set(n)
+			return
+		}
+	}
+	dst.Set(src)
+}
+
+func c10CopyValue(val interface{}) interface{} {
+	rv := reflect.ValueOf(val)
+	if rv.Kind() != reflect.Ptr || rv.IsNil() {
+		return val
+	}
+	n := reflect.New(rv.Type().Elem())
+	c10Copy(n.Elem(), rv.Elem())
+	return n.Interface()
+}
+
+var c10IntVals = map[string]uint64{"i0": 0, "ifc": 0xfc, "ifd": 0xfd, "iffff": 0xffff, "i10000": 0x10000,
+	"iffffffff": 0xffffffff, "i100000000": 0x100000000, "imax": ^uint64(0)}
+var c10IntNeed = map[string]int{"i0": 0, "ifc": 1, "ifd": 1, "iffff": 2, "i10000": 3, "iffffffff": 4,
+	"i100000000": 5, "imax": 0}
+var c10LenVals = map[string]int{"l0": 0, "l1": 1, "lfc": 0xfc, "lfd": 0xfd, "lff": 0xff, "l100": 0x100}
+
+// c10SetLeaf drives one leaf to the value of a boundary class; ok=false: the
+// class does not exist for this leaf (wider than the field).
+func c10SetLeaf(l c10Leaf, cls string) (string, bool) {
+	switch l.class {
+	case "int":
+		x, ok := c10IntVals[cls]
+		if !ok || c10IntNeed[cls] > l.w {
+			return "", false
+		}
+		if l.w > 0 && l.w < 8 {
+			x &= 1<<(8*uint(l.w)) - 1
+		}
+		switch l.v.Kind() {
+		case reflect.Bool:
+			l.v.SetBool(x != 0)
+		case reflect.Int8, reflect.Int16, reflect.Int32, reflect.Int64, reflect.Int:
+			switch l.w {
+			case 1:
+				l.v.SetInt(int64(int8(x)))
+			case 2:
+				l.v.SetInt(int64(int16(x)))
+			case 4:
+				l.v.SetInt(int64(int32(x)))
+			default:
+				l.v.SetInt(int64(x))
+			}
+		default:
+			l.v.SetUint(x)
+		}
+		return fmt.Sprintf("%x", x), true
+	case "bytes":
+		n := l.w
+		if n < 4 {
+			return "", false
+		}
+		b := make([]byte, n)
+		for i := range b {
+			switch cls {
+			case "b00":
+			case "bff":
+				b[i] = 0xff
+			case "bz":
+				// text, a zero, more text
+				if b[i] = byte('a' + i%26); i == n/3 {
+					b[i] = 0
+				}
+			case "butf":
+				// 0xc3 0x28 is not UTF-8
+				if b[i] = byte('a' + i%26); i == n/2 {
+					b[i] = 0xc3
+				} else if i == n/2+1 {
+					b[i] = 0x28
+				}
+			default:
+				return "", false
+			}
+		}
+		reflect.Copy(l.v, reflect.ValueOf(b))
+		if n > 40 {
+			b = b[:40]
+		}
+		return hex.EncodeToString(b), true
+	case "len":
+		n, ok := c10LenVals[cls]
+		if !ok {
+			return "", false
+		}
+		l.v.Set(reflect.ValueOf(bytes.Repeat([]byte{0x61}, n)).Convert(l.v.Type()))
+		return fmt.Sprintf("%d x 61", n), true
+	}
+	return "", false
+}
+
+var c10ValClass = map[string]string{"val-int": "int", "val-bytes": "bytes", "val-len": "len"}
+
+// c10ValCase builds the input of a value-boundary cell: the encoding of a
+// copy of the generated value in which the leaf selected by the repetition
+// has the boundary value.  It fills the field description into rec; app=false:
+// not applicable; in=nil with app=true: the encoder refused (e0=0) or panicked.
+func c10ValCase(v *c10Valid, c c10Cell, rep int, rec verifkit.Rec) (in []byte, orig interface{}, app bool) {
+	cp := c10CopyValue(v.val)
+	leaves := c10Leaves(cp, c10ValClass[c.Op])
+	rec["nf"], rec["path"], rec["val"] = len(leaves), "", ""
+	if len(leaves) == 0 {
+		return nil, nil, false
+	}
+	fi := (rep - 1) % len(leaves)
+	l := leaves[fi]
+	rec["fi"], rec["fld"], rec["path"], rec["gotype"], rec["w"] = fi+1, l.fld, l.path, l.gotype, l.w
+	if strings.Contains(l.path, "[") {
+		rec["inlist"] = 1
+	}
+	val, ok := c10SetLeaf(l, c.Pos)
+	if !ok {
+		return nil, nil, false
+	}
+	rec["val"] = val
+	rec["e0"] = 0
+	func() {
+		defer func() {
+			if r := recover(); r != nil {
+				rec["pan"] = 1
+				rec["panic"] = fmt.Sprint(r)
+			}
+		}()
+		b, err := c10Codecs[c.Kind].enc(cp)
+		if err != nil {
+			rec["encerr"] = err.Error()
+			return
+		}
+		in = b
+		rec["e0"] = 1
+		if !bytes.Equal(b, v.b) {
+			rec["chg"] = 1
+		}
+	}()
+	return in, cp, true
+}
+
 var c10AllocSample = []metrics.Sample{{Name: "/gc/heap/allocs:bytes"}}
 
 func c10Allocs() uint64 {
@@ -673,11 +984,21 @@ func TestVerifC10WireLaws(t *testing.T) {
 			rec := verifkit.Rec{"a": "Law", "kind": c.Kind, "t": c.T, "op": c.Op, "pos": c.Pos, "rep": rep,
 				"na": 0, "vlen": len(v.b), "ilen": len(v.b), "h": "",
 				"pan": 0, "hang": 0, "alloc": 0, "d1": 0, "e1": 0, "e1len": 0, "d2": 0, "e2": 0,
-				"fix": 0, "same": 0, "veq": 0}
+				"fix": 0, "same": 0, "veq": 0,
+				"nf": 0, "fi": 0, "fld": "", "gotype": "", "w": 0, "inlist": 0, "e0": 1, "chg": 0}
 			var orig interface{}
 			var in []byte
 			app := false
-			if c.Op == "ext-odd" || c.Op == "var-bound" {
+			if c10ValClass[c.Op] != "" {
+				in, orig, app = c10ValCase(v, c, rep, rec)
+				if app && in == nil {
+					// the encoder did not produce an input: that is the observation
+					rec["ilen"] = 0
+					out.Emit(rec)
+					ncase++
+					continue
+				}
+			} else if c.Op == "ext-odd" || c.Op == "var-bound" {
 				ev, ok := interface{}(nil), false
 				if c.Op == "ext-odd" {
 					ev, ok = c10ExtOdd(c.Kind, v.val)
